@@ -3,6 +3,7 @@ package harness
 import (
 	"fmt"
 	"strings"
+	"time"
 
 	"github.com/fluffle/goirc/client"
 
@@ -274,6 +275,77 @@ func c04SeqJob(prefix []int, depth int) Job {
 			}
 		}
 		rec()
+		return e.Done()
+	}}
+}
+
+// c04QueuedJob: a registry change made while the line it matters for is already received and waits in the queue.
+// FOO and BAZ arrive in one segment; the foreground handler of FOO takes d of virtual time and then registers (or
+// removes) a handler for BAZ: BAZ is dispatched after that, so the change counts for it ("the handlers registered
+// when it is dispatched"), whenever the line was read from the socket.
+func c04QueuedJob() Job {
+	name := "queued-line/change-between-receipt-and-dispatch"
+	return Job{Name: name, Cost: 5, Run: func(jc *JobCtx) *JobResult {
+		e := NewEnum(name)
+		for _, d := range []time.Duration{0, time.Millisecond, time.Second, time.Hour} {
+			for _, set := range []string{"fg", "bg"} {
+				for _, op := range []string{"add", "remove", "remove-then-add"} {
+					for _, spelled := range []string{"baz", "BAZ"} {
+						var count [2]int
+						var cerr error
+						o := RunSeq(vx.Options{Horizon: 6 * time.Hour}, func(env *vx.Env) {
+							s, err := StartSession(env, "me", nil, nil)
+							if err != nil {
+								cerr = err
+								return
+							}
+							reg := func(i int) client.Remover {
+								h := client.HandlerFunc(func(*client.Conn, *client.Line) { count[i]++ })
+								if set == "bg" {
+									return s.C.HandleBG(spelled, h)
+								}
+								return s.C.Handle(spelled, h)
+							}
+							var old client.Remover
+							if op != "add" {
+								old = reg(0)
+							}
+							s.C.HandleFunc("foo", func(*client.Conn, *client.Line) {
+								if d > 0 {
+									vx.Sleep(d)
+								}
+								if old != nil {
+									old.Remove()
+								}
+								if op != "remove" {
+									reg(1)
+								}
+							})
+							s.Feed(":o!u@h FOO", ":o!u@h BAZ")
+							vx.Sleep(d + time.Second) // quiescence does not wait for a sleeping handler
+							vx.Quiesce()
+							s.End()
+						})
+						in := fmt.Sprintf("FOO and BAZ in one segment; the FOO handler takes %s, then %s a %s handler for %q", d, op, set, spelled)
+						e.Case(in)
+						want := [2]int{0, 1}
+						if op == "remove" {
+							want = [2]int{0, 0}
+						}
+						switch {
+						case cerr != nil:
+							e.R.Error = "connect failed in harness: " + cerr.Error()
+							return e.Done()
+						case o.Kind != "ok":
+							e.Fail("queued-line", o.Kind, in, "session ended in "+o.Kind+": "+o.BlockedSig(), nil)
+						case count != want:
+							e.Fail("queued-line", "invocation-count", in, fmt.Sprintf("for BAZ the handler removed before its dispatch ran %d time(s) and the one registered before its dispatch %d time(s), expected %d and %d", count[0], count[1], want[0], want[1]), nil)
+						}
+					}
+				}
+			}
+		}
+		e.Sample("FOO and BAZ in one segment; the FOO handler takes 1s, then add a bg handler for \"baz\"")
 		return e.Done()
 	}}
 }
@@ -607,7 +679,7 @@ func c04OverlapScenario(nbg, nev int) *explore.Scenario {
 func init() {
 	Register(&Prop{
 		ID:   "C04",
-		Rule: "all histories up to depth 5 (quick) / 6 (thorough) that end in an event, over 20 letters = register fg/bg (Handle, HandleFunc, HandleBG) under foo/FOO/Foo/baz, 8 scripted handlers (remove self, remove previous sibling, add to own set, add to other set; in scripted histories also: remove a later sibling), Remove of the first/second/last registered handler, events FOO and BAZ; each history runs on a fresh real session and per-handler invocation counts are compared with the multiset model after every event; plus scripted histories, racing Handle/HandleBG/Remove calls from another goroutine (against a dispatch in flight, and two calls against each other: two first registrations of a name, registration against removal of the only handler, two removals), and back-to-back events whose background dispatches overlap, under K<=2 schedule deviations; distinct = distinct histories",
+		Rule: "all histories up to depth 5 (quick) / 6 (thorough) that end in an event, over 20 letters = register fg/bg (Handle, HandleFunc, HandleBG) under foo/FOO/Foo/baz, 8 scripted handlers (remove self, remove previous sibling, add to own set, add to other set; in scripted histories also: remove a later sibling), Remove of the first/second/last registered handler, events FOO and BAZ; each history runs on a fresh real session and per-handler invocation counts are compared with the multiset model after every event; plus registry changes made by a slow foreground handler while the next line is already received and queued (add / remove / replace a fg / bg handler for it after 0, 1 ms, 1 s, 1 h of virtual time); plus scripted histories, racing Handle/HandleBG/Remove calls from another goroutine (against a dispatch in flight, and two calls against each other: two first registrations of a name, registration against removal of the only handler, two removals), and back-to-back events whose background dispatches overlap, under K<=2 schedule deviations; distinct = distinct histories",
 		Assumptions: []string{
 			"sequential histories run under the default scheduler with quiescence between top-level operations; interleavings are the subject of the handlers-concurrent / handlers-race families",
 			"each Remover is used at most once (guarded by the harness); a handler added to the other set during an event may or may not see that event",
@@ -626,6 +698,7 @@ func init() {
 					jobs = append(jobs, c04SeqJob([]int{i, j}, depth))
 				}
 			}
+			jobs = append(jobs, c04QueuedJob())
 			R := func(set, via, name, script string) c04Op {
 				return c04Op{Kind: "reg", Set: set, Via: via, Name: name, Script: script}
 			}
